@@ -11,7 +11,7 @@ use super::{
     TSetIdentifier, TStructIdentifier, TType, ThriftException, ZERO_COPY_THRESHOLD,
     error::ProtocolExceptionKind,
     new_protocol_exception,
-    rw_ext::{ReadExt, WriteExt},
+    rw_ext::{IOError, ReadExt, WriteExt},
 };
 
 const VERSION_LE: u32 = 0x88880000;
@@ -858,6 +858,11 @@ impl TInputProtocol for TBinaryProtocol<&mut Bytes> {
     fn read_bytes(&mut self) -> Result<Bytes, ThriftException> {
         let len = self.trans.read_i32_le()?;
         // split and freeze it
+        crate::assert_remaining!(
+            len as usize <= self.trans.len(),
+            "length {} exceeds remaining",
+            len as usize
+        );
         Ok(self.trans.split_to(len as usize))
     }
 
@@ -868,6 +873,7 @@ impl TInputProtocol for TBinaryProtocol<&mut Bytes> {
                 std::slice::from_raw_parts(ptr, len)
             }))
         } else {
+            crate::assert_remaining!(len <= self.trans.len(), "length {} exceeds remaining", len);
             Ok(self.trans.split_to(len))
         }
     }
@@ -913,6 +919,7 @@ impl TInputProtocol for TBinaryProtocol<&mut Bytes> {
     #[inline]
     fn read_faststr(&mut self) -> Result<FastStr, ThriftException> {
         let len = self.trans.read_i32_le()? as usize;
+        crate::assert_remaining!(len <= self.trans.len(), "length {} exceeds remaining", len);
         let bytes = self.trans.split_to(len);
         unsafe { Ok(FastStr::from_bytes_unchecked(bytes)) }
     }
@@ -962,6 +969,7 @@ impl TInputProtocol for TBinaryProtocol<&mut Bytes> {
     #[inline]
     fn read_bytes_vec(&mut self) -> Result<Vec<u8>, ThriftException> {
         let len = self.trans.read_i32_le()? as usize;
+        crate::assert_remaining!(len <= self.trans.len(), "length {} exceeds remaining", len);
         Ok(self.trans.split_to(len).into())
     }
 
